@@ -144,5 +144,5 @@ func checkC09(rc *RunCtx) {
 		return hasAnyPrefix(l, "Tip(cyc", "Tip(modeq,1)", "Tip(modeq,50)", "Tip(modeq,1000001)", "Submit(R1,cyc,std)", "Submit(R2,cyc,std200)", "Submit(R1,modeq,std)", "Submit(R2,modeq,std200)",
 			"Switch(S1->R2)", "Undelegate(S1,V1,all)", "Delegate(S1,V2,5)", "WithdrawTip(R2,V1)")
 	}, []time.Duration{time.Second, time.Millisecond}, mons, depth, []time.Duration{time.Second, time.Second, time.Second})
-	runSkeletons(rc, mons, kOf(rc))
+	runSkeletons(rc, mons, kOf(rc), skOracle...)
 }
